@@ -285,6 +285,10 @@ def loser_whole_run(chk, sseed):
             return
         new = [common.evolve(rng, r) for r in w.repos]
         stores2 = w.stores(new)
+        if any(common.has_s3(r, w.cfgs[r["url"]], stores2[r["url"]]) for r in new):
+            chk.evaluated(None)
+            chk.count("loser:skipped(S3 in the holder's version)")   # the holder's own run would exit 1 for a reason of its own
+            return
         nev = max(2, len(res1.trace.events))
         points = set(rng.sample(range(1, nev), min(2, nev - 1)))
         window = [2]
@@ -301,9 +305,9 @@ def loser_whole_run(chk, sseed):
                 window[0] -= 1
             before = protected_state(w.sb)
             try:
-                r = subprocess.run([sys.executable, "-c", code], capture_output=True, text=True, timeout=25)
+                r = subprocess.run([sys.executable, "-c", code], capture_output=True, text=True, timeout=240)
             except subprocess.TimeoutExpired:
-                chk.violation("loser-does-not-exit", dict(replay, at=[idx, op, rel]), "a second process started while the first is inside is still running after 25 s")
+                chk.violation("loser-does-not-exit", dict(replay, at=[idx, op, rel]), "a second process started while the first is inside is still running after 240 s")
                 return
             after = protected_state(w.sb)
             launched.append((idx, op, rel, r.returncode))
